@@ -25,6 +25,7 @@ def _impl_worker(args):
         extra = dict(sock_closed=(r.sock.closed if r.sock else None),
                      sel_closed=(r.selector.closed if r.selector else None),
                      sock_close_calls=(r.sock.close_calls if r.sock else 0),
+                     sock_closed_after_with=getattr(r, "sock_closed_after_with", None),
                      escaped=r.escaped, wait_timeouts=r.wait_timeouts[:50], wake_script=r.wake_script,
                      request=r.request,
                      alias_ok=_alias_check(r),
